@@ -40,6 +40,10 @@ CLAIMED = {
             "fail_stale_trials runs the failure callback only for ids whose set_trial_state_values(id, FAIL) returned True, tolerates UpdateFinishedTrialError, hands over a deep copy; the CAS (row lock, finished guard, write) exists on every heartbeat-capable storage; the stale query only returns RUNNING trials of the study with a heartbeat strictly older than the grace period; the retry callback appends history before the max_retry test and rebuilds the trial unchanged; optimize sweeps before ask. Decides the at-most-once mechanism on all paths; not DB-clock behaviour or crashes between CAS and callback.",
             "Trusts SQL row locks and that finished trials raise UpdateFinishedTrialError (checked in R19.3 for the base guard).",
             "DESIGN.md §3 C19"),
+    "C16": ("guard-dominance on the CFG (pass edge of a gate test dominates every non-False return), comparison-polarity normal form, backward-slice census for bracket purity",
+            "For every protective constructor parameter of every built-in pruner (10 class/field pairs) every return of prune() that is not the constant False is dominated by the pass edge of a gate reading that parameter whose other edge returns False, with the comparison pointing the protecting way; NopPruner only returns False; ThresholdPruner prunes exactly under NaN/<lower/>upper; Hyperband returns False while uninitialised, delegates to SuccessiveHalving pruners built from its own parameters and its bracket id reads only study name, trial number and configuration. Decides that gates cannot be bypassed on any path; not the numeric 'strictly better is never pruned' clause.",
+            "Protective-parameter table confirmed by reading the pruner docs; _is_first_in_interval_step's arithmetic is not decided.",
+            "DESIGN.md §3 C16"),
 }
 
 NOT_APPLICABLE = {
